@@ -30,6 +30,10 @@ fn main() {
         plain.push(w.to_string());
     }
     // nested sets that are LARGER than the set they sit in (T: three members, F: five members)
+    // members without run-time state (Z: a unit struct) and a nested set made only of such members (Y)
+    for w in ["Z", "ZZ", "AZ", "ZA", "ZB", "AZB", "ZAZ", "NZ", "ZN", "Y", "AY", "YA", "YZ", "ZYB", "AZBZN", "ZZZZZ"] {
+        plain.push(w.to_string());
+    }
     for w in ["T", "F", "AT", "TA", "BT", "AF", "FA", "ATB", "TT", "NT", "TN", "TF", "ATNB", "AAT", "ABTAB", "AFB", "NFN"] {
         plain.push(w.to_string());
     }
@@ -48,6 +52,9 @@ fn main() {
         ("AgentSet", "S", "ProbeA", "ProbeB", "NestedS", "bourse_de::Env", "bourse_de::agents::AgentSet"),
         ("MarketAgentSet", "M", "MProbeA", "MProbeB", "NestedM", "bourse_de::MarketEnv<2, 3>", "bourse_de::agents::MarketAgentSet"),
     ] {
+        let probe_z = if suffix == "S" { "ProbeZ" } else { "MProbeZ" };
+        let nested_z = format!("{nested}Z");
+        writeln!(s, "#[derive({mac})]\npub struct {nested_z} {{ pub x: {probe_z}, pub y: {probe_z} }}").unwrap();
         writeln!(s, "#[derive({mac})]\npub struct {nested} {{ pub x: {probe_a}, pub y: {probe_b} }}").unwrap();
         writeln!(s, "#[derive({mac})]\npub struct {nested}3 {{ pub x: {probe_a}, pub y: {probe_b}, pub z: {probe_a} }}").unwrap();
         writeln!(s, "#[derive({mac})]\npub struct {nested}5 {{ pub x: {probe_a}, pub y: {probe_b}, pub z: {probe_a}, pub v: {probe_b}, pub w: {probe_a} }}").unwrap();
@@ -71,6 +78,8 @@ fn main() {
                     'B' => probe_b,
                     'T' => &nested3,
                     'F' => &nested5,
+                    'Z' => probe_z,
+                    'Y' => &nested_z,
                     _ => nested,
                 }
             };
@@ -126,6 +135,8 @@ fn main() {
                         writeln!(s, "        {}: {probe_b}::new({tag}, log),", fname(j)).unwrap();
                         tag += 1;
                     }
+                    'Z' => writeln!(s, "        {}: {probe_z},", fname(j)).unwrap(),
+                    'Y' => writeln!(s, "        {}: {nested_z} {{ x: {probe_z}, y: {probe_z} }},", fname(j)).unwrap(),
                     'T' => {
                         writeln!(s, "        {}: {nested}3 {{ x: {probe_a}::new({tag}, log), y: {probe_b}::new({}, log), z: {probe_a}::new({}, log) }},", fname(j), tag + 1, tag + 2).unwrap();
                         tag += 3;
@@ -147,7 +158,8 @@ fn main() {
             writeln!(s, "fn hand_{name}<R: rand::RngCore>(a: &mut {name}, env: &mut {env_ty}, rng: &mut R) {{").unwrap();
             for (j, k) in w.chars().enumerate() {
                 match k {
-                    'A' | 'B' => writeln!(s, "    a.{}.update(env, rng);", fname(j)).unwrap(),
+                    'A' | 'B' | 'Z' => writeln!(s, "    a.{}.update(env, rng);", fname(j)).unwrap(),
+                    'Y' => writeln!(s, "    a.{0}.x.update(env, rng);\n    a.{0}.y.update(env, rng);", fname(j)).unwrap(),
                     'T' => writeln!(s, "    a.{0}.x.update(env, rng);\n    a.{0}.y.update(env, rng);\n    a.{0}.z.update(env, rng);", fname(j)).unwrap(),
                     'F' => writeln!(s, "    a.{0}.x.update(env, rng);\n    a.{0}.y.update(env, rng);\n    a.{0}.z.update(env, rng);\n    a.{0}.v.update(env, rng);\n    a.{0}.w.update(env, rng);", fname(j)).unwrap(),
                     _ => writeln!(s, "    a.{0}.x.update(env, rng);\n    a.{0}.y.update(env, rng);", fname(j)).unwrap(),
